@@ -7,7 +7,7 @@ from hypothesis import strategies as st
 from pbt import strategies as S
 from pbt.common import Stats, Sub, Violation
 from pbt.model import NODELIM, Model
-from pbt.sut import mk_converter
+from pbt.sut import mk_incremental_queried, query_everything, mk_converter
 
 PROPERTY_ID = "C06"
 RULE = (
@@ -45,11 +45,10 @@ def cases(draw, tier="quick"):
     return case
 
 
-def check(case, stats: Stats) -> None:
+def _check_on(c, case, stats: Stats) -> None:
     spec = case["spec"]
     recs, d = spec["records"], spec["delimiter"]
     model = Model(recs, d)
-    c = mk_converter(spec)
     pf = model.is_prefix_free()
     stats.cls("prefix-free-converters" if pf else "nested-converters")
     known = model.all_prefixes()
@@ -98,6 +97,20 @@ def check(case, stats: Stats) -> None:
                 raise Violation(f"prefix-free map: compress(standardize_uri({u!r})) = {c.compress(got)!r} != compress = {c.compress(u)!r}")
         if got != u:
             stats.nontrivial({"records": recs, "delimiter": d, "kind": "uri", "x": u}, "uri-synonym" + ("-prefix-free" if pf else ""))
+
+
+
+def check(case, stats: Stats) -> None:
+    spec = case["spec"]
+    _check_on(mk_converter(spec), case, stats)
+    # same laws on a converter grown record by record / synonym by synonym with all queries issued after every mutation
+    n = len(spec["records"])
+    inc = mk_incremental_queried(spec, list(reversed(range(n))), lambda c: query_everything(c, case["uris"] + case["curies"] + case["prefixes"], ()))
+    try:
+        _check_on(inc, case, Stats())
+    except Violation as v:
+        v.message = "[converter built incrementally with interleaved queries] " + v.message
+        raise
 
 
 SUBS = [
